@@ -179,6 +179,28 @@ def generate(rs: int, tier: str, index: int) -> dict:
         journey["options"] = {"retain_names": co.chance(0.3), "retain_coefficients": co.chance(0.5)}
     if co.chance(0.3):
         journey["exp_layout"] = co.choice(["F", "narrow", "narrow"])
+    cd = ch.sub("journey-drop")
+    if nv >= 2 and cd.chance(0.08):
+        # names stored out of alphabetical order, two differentiation variables, and the first differentiation removes
+        # its indeterminate from every term; under retain_names=False the intermediate result is re-laid on other columns
+        order = cd.shuffle(list(range(nv)))
+        if order == sorted(order):
+            order = order[::-1]
+        journey["names"] = [names[i] for i in order]
+        v1 = cd.below(nv)
+        v2 = (v1 + 1 + cd.below(nv - 1)) % nv
+        rows, coefs = [], []
+        for e, c in zip(start["exponents"], start["coefficients"]):
+            e = list(e)
+            e[v1] = 1
+            if e[v2] == 0:
+                e[v2] = cd.between(1, 3)
+            if e not in rows:
+                rows.append(e)
+                coefs.append(c)
+        journey["start"] = {"exponents": rows, "coefficients": coefs}
+        journey["options"] = {"retain_names": False, "retain_coefficients": cd.chance(0.3)}
+        journey["stages"] = [{"stage": "deriv", "var": v1, "var2": v2, "by": cd.choice(["name", "index", "poly"]), "observe": False}] + stages[:2]
     cm = ch.sub("journey-mem")
     if cm.chance(0.3):
         # narrower coefficient types take other writers inside numpoly; and what a fresh buffer holds before it is
